@@ -86,7 +86,7 @@ def h_jws(ctx):
     from joserfc import jws, jwt, rfc7797
     name = ctx.choose("alg", JWS_SUPPORTED + NEAR[:4] + LOOKALIKE["jws"] + NONSTR)
     form = ctx.choose("allow_list", LFORMS)
-    how = ctx.choose("given_as", ["algorithms", "algorithms-as-tuple", "algorithms-as-frozenset", "registry", "registry+empty-algorithms", "plain-jws-registry", "plain-jws-registry-nonstrict"] + REGISTRY_COPIES)
+    how = ctx.choose("given_as", ["algorithms", "algorithms-as-tuple", "algorithms-as-frozenset", "registry", "registry+empty-algorithms", "plain-jws-registry", "plain-jws-registry-nonstrict", "registry+algorithms-naming-others"] + REGISTRY_COPIES)
     op = ctx.choose("operation", ["sign", "verify"])
     path = ctx.choose("path", ["compact", "flattened", "general", "7797-compact", "7797-flattened", "jwt"])
     if how.startswith("plain") and not path.startswith("7797"):
@@ -115,6 +115,11 @@ def h_jws(ctx):
         if how == "registry+empty-algorithms":
             # an empty algorithms= means "no explicit list": the registry the caller passed keeps deciding
             return {"registry": (rfc7797.JWSRegistry if seven else jws.JWSRegistry)(algorithms=copy.copy(L)), "algorithms": []}
+        if how == "registry+algorithms-naming-others":
+            # the registry carries the list, and an algorithms= argument names other algorithms (never this one): whichever of the two the library
+            # lets decide, an algorithm that the registry's list lacks is in neither
+            others = [x for x in JWS_SUPPORTED if x != name and x not in L][:2] or [x for x in JWS_SUPPORTED if x != name][:1]
+            return {"registry": (rfc7797.JWSRegistry if seven else jws.JWSRegistry)(algorithms=copy.copy(L)), "algorithms": others}
         if how.startswith("plain"):
             # a plain RFC 7515 registry handed to the RFC 7797 entry points: its allow-list must still be the one that counts
             return {"registry": jws.JWSRegistry(algorithms=copy.copy(L), strict_check_header=not how.endswith("nonstrict"))}
@@ -174,7 +179,7 @@ def h_jws(ctx):
     cls = "none" if name == "none" else ("non-string" if not isinstance(name, str) else ("unknown" if name not in JWS_SUPPORTED else name[:2] + "*"))
     if r.ok and not exp:
         vs.append(viol(f"JWS {op} succeeds with an algorithm the caller did not allow [{cls}, list {form}, {how}]", what))
-    elif not r.ok and exp and not how.startswith("plain"):
+    elif not r.ok and exp and not how.startswith("plain") and how != "registry+algorithms-naming-others":
         vs.append(viol(f"JWS {op} fails with an allowed algorithm [{cls}, list {form}, {how}]", f"{what}: {r.exc!r}"))
     elif not r.ok and isinstance(name, str) and not exp and name != "none" and not is_unsupported_error(r.exc) and not how.startswith("plain"):
         vs.append(viol(f"JWS {op}: a disallowed well-typed algorithm name is not reported as unsupported-algorithm [{cls}, {type(r.exc).__name__}]", f"{what}: {r.exc!r}"))
@@ -280,6 +285,53 @@ def h_jwe(ctx):
         vs.append(viol(f"JWE {op}: a disallowed well-typed {dim} name is not reported as unsupported-algorithm [{cls}, {type(r.exc).__name__}]", f"{what}: {r.exc!r}"))
     return Outcome(f"{op}:{dim}:{'ok' if r.ok else 'rej'}:{'allowed' if exp else 'not-allowed'}", vs,
                    nontrivial=(dim, name if isinstance(name, str) else repr(name), form, how, op, path))
+
+
+# ------------------------------------------------------------------ several signatures: every entry's alg is gated
+def h_jws_multi(ctx):
+    """General JSON JWS, two entries: one genuine for an allowed algorithm; the other names an algorithm the caller did not allow - in its own
+    protected header (a genuine signature with it), or only in an unprotected header put next to a copy of the good entry's protected header
+    and signature."""
+    from joserfc import jws
+    from joserfc.jwk import KeySet
+    other = ctx.choose("other_alg", ["HS384", "HS512", "RS256", "none", "FOO", "hs256", "", None, 7])
+    shape = ctx.choose("other_entry_is", ["a genuine signature naming it in its protected header", "a copy of the good entry with the name in an unprotected header",
+                                          "an entry with only an unprotected header naming it"])
+    pos = ctx.choose("position_of_other_entry", [0, 1])
+    form = ctx.choose("allow_list", ["absent", "explicit", "explicit+other"])
+    how = ctx.choose("given_as", ["algorithms", "registry"])
+    if form == "absent" and how == "registry":
+        return Outcome("n/a", [], nontrivial=None)
+    k_good, k_other = scen.key("oct32", 1), scen.key("oct64", 2)
+    payload = b'{"iss":"a"}'
+    seg = b64.enc(rjws.hdr_json({"alg": "HS256", "kid": "good"}).encode())
+    good = {"protected": seg, "signature": b64.enc(jws_sign("HS256", k_good, rjws.signing_input(seg, payload, True)))}
+    real = other if isinstance(other, str) and other in JWS_KTY else None
+    if shape.startswith("a genuine"):
+        if not isinstance(other, str):
+            return Outcome("n/a", [], nontrivial=None)
+        seg2 = b64.enc(rjws.hdr_json({"alg": other, "kid": "other"}).encode())
+        kj = k_other if real and real.startswith("HS") else (scen.key("rsa") if real else k_other)
+        sig2 = b64.enc(jws_sign(real, kj, rjws.signing_input(seg2, payload, True))) if real else ("" if other == "none" else b64.enc(b"\x01" * 32))
+        entry = {"protected": seg2, "signature": sig2}
+    elif shape.startswith("a copy"):
+        entry = {"protected": good["protected"], "header": {"alg": other}, "signature": good["signature"]}
+    else:
+        entry = {"header": {"alg": other, "kid": "other"}, "signature": b64.enc(b"\x01" * 32)}
+    sigs = [None, None]
+    sigs[pos], sigs[1 - pos] = entry, good
+    tok = {"payload": b64.enc(payload), "signatures": sigs}
+    L = None if form == "absent" else (["HS256"] + ([other] if form == "explicit+other" and isinstance(other, str) else []))
+    allowed = usable(other, L, JWS_SUPPORTED, JWS_REC, True)
+    keys = KeySet([A.jkey({**k_good, "kid": "good"}, "dict"), A.jkey({**(rjwk.public_of(scen.key("rsa")) if real and real.startswith("RS") else k_other), "kid": "other"}, "dict")])
+    kw = {"algorithms": copy.copy(L)} if how == "algorithms" else {"registry": jws.JWSRegistry(algorithms=copy.copy(L))}
+    r = call(lambda: bytes(jws.deserialize_json(copy.deepcopy(tok), keys, **kw).payload))
+    vs = []
+    cls = "none" if other == "none" else ("non-string" if not isinstance(other, str) else ("unknown" if other not in JWS_SUPPORTED else other[:2] + "*"))
+    what = f"general JSON JWS, entry {pos} is {shape} (alg={other!r}), the other entry HS256; allow-list {L!r} given as {how}"
+    if r.ok and not allowed:
+        vs.append(viol(f"JWS verify succeeds although a signature entry names an algorithm the caller did not allow [{cls}, list {form}, {how}]", f"{what}: returned {r.value!r}"))
+    return Outcome(f"jws-multi:{'ok' if r.ok else 'rej'}:{'allowed' if allowed else 'not-allowed'}", vs, nontrivial=(repr(other), shape, pos, form, how))
 
 
 # ------------------------------------------------------------------ several recipients: every entry's alg is gated
@@ -546,6 +598,7 @@ PARTS = [
     Part("jws-allow-lists", h_jws, split_depth=3),
     Part("jwe-allow-lists", h_jwe, split_depth=3),
     Part("jwe-several-recipients", h_jwe_multi, split_depth=2),
+    Part("jws-several-signatures", h_jws_multi, split_depth=2),
     Part("call-histories", custom=histories, engine="E2"),
     Part("thread-schedules", h_threads, bound={"quick": 1, "thorough": 2}, split_depth=2, budget={"quick": 2000, "thorough": 3000}, engine="E3"),
 ]
